@@ -25,6 +25,10 @@ package sub
 //@
 //@ func (*context).subscribe
 //@   holds c.s.Mutex
+//@   ensures isnil(result)
+//@   ensures exists(i, 0, len(c.subs), eqseq(c.subs[i], old(topic)))
+//@   ensures len(c.subs) >= len(old(c.subs)) && len(c.subs) <= len(old(c.subs)) + 1
+//@   ensures forall(i, 0, len(old(c.subs)), eqseq(c.subs[i], old(c.subs)[i]))
 //@
 //@ func (*context).unsubscribe
 //@   holds c.s.Mutex
